@@ -277,6 +277,9 @@ Vector Spherical_Coordinates(double r, double theta, double phi, const Vector& a
 	libphysica::Vector ev = axis.Normalized();
 	// Length of the projection of the axis onto the x-y plane. (Computing it as sqrt(1-ev_z^2) cancels catastrophically for axes close to +-z.)
 	double aux = sqrt(ev[0] * ev[0] + ev[1] * ev[1]);
+	// Below 1e-150 the squares are subnormal and aux loses its digits (down to none); such an axis is +-z to far better than rounding.
+	if(aux < 1.0e-150)
+		aux = 0.0;
 	if(axis.Norm() == 0.0 || (aux == 0.0 && ev[2] > 0.0))
 		return Spherical_Coordinates(r, theta, phi);
 	else if(aux == 0.0)
